@@ -212,7 +212,7 @@ fn vmp_apply_dft_to_dft_core<const OVERWRITE: bool, REIM>(
     let (mat2cols_output, extracted_blk) = tmp_bytes.split_at_mut(16);
 
     let row_max: usize = nrows.min(a_size);
-    let col_max: usize = ncols.min(res_size);
+    let col_max: usize = ncols.min(res_size + limb_offset);
 
     if limb_offset >= col_max {
         if OVERWRITE {
